@@ -22,7 +22,7 @@ BOUNDS = {"quick": {"pricing_configs": 3, "max_credits": "[0,6] symbolic", "hist
 ASSUMPTIONS = ["a wait that ends exactly on an expiry deadline is assumed away",
                "coin values are multiples of 1/4 (exact in binary floating point), three fixed pricing configurations",
                "max_credits: 0 means unlimited (as the code documents); balls are faked (playfield.add_ball stubbed)",
-               "free-play mode: coins are not wired at all (handlers removed), so the ledger ignores coins while in free play; a game "
+               "one configuration is booted in free play (free_play: yes) and then switched to credit play", "free-play mode: coins are not wired at all (handlers removed), so the ledger ignores coins while in free play; a game "
                "started in free play does not suspend the expiry periods (the statement is about credit play)",
                "nothing expires during a credit-play game, whichever credits arrive during it (test_CreditsMode: 'but not during game')"]
 BUDGET = {"quick": 100, "thorough": 600}
@@ -56,7 +56,7 @@ def ref_units_for(cfg, money_units):
 
 
 def setup(part):
-    t = stubs.boot("credits", "config_%s.yaml" % part["cfg"])
+    t = stubs.boot("credits", "config_%s%s.yaml" % (part["cfg"], "f" if part.get("boot_free") else ""))
     t.machine.playfield.add_ball = lambda **kwargs: None
     t.machine.ball_controller.num_balls_known = 3
     return t
@@ -78,13 +78,13 @@ def _units(t):
 class Ledger:
     """Reference model written from the statement."""
 
-    def __init__(self, cfg, maxc, units=0, c=0):
+    def __init__(self, cfg, maxc, units=0, c=0, free=False):
         self.cfg, self.upg = cfg, UPG[cfg]
         self.max_units = maxc * self.upg
         self.units, self.c = units, c
         self.wrap = TIERS[cfg][-1][0]
         self.players = 0
-        self.free = False
+        self.free = free
         self.money = 0          # quarter-units accepted
         self.coins = 0
         self.last_activity = None
@@ -186,7 +186,7 @@ def _hit(t, name):
     t.advance_time_and_run(0.01)
 
 
-OPS = ["coin_q", "coin_d", "service", "start", "end_game", "wait", "toggle", "award"]
+OPS = ["coin_q", "coin_d", "service", "start", "end_game", "wait", "toggle", "award", "enable_credit", "enable_free"]
 
 
 def _apply(S, t, led, op, i):
@@ -230,6 +230,11 @@ def _apply(S, t, led, op, i):
         led.free = not led.free
         if not led.free and led.in_game is False:
             pass
+    elif op in ("enable_credit", "enable_free"):
+        # the explicit forms of the toggle; posting the one that is already in force must change nothing
+        m.events.post("enable_credit_play" if op == "enable_credit" else "enable_free_play")
+        t.advance_time_and_run(0.01)
+        led.free = op == "enable_free"
     elif op == "wait":
         gap = S.real("wait%d" % i, 0, 10800)
         t.advance_time_and_run(gap)
@@ -254,7 +259,7 @@ def _audits(t, led):
 def body_history(S, t, part):
     S.now_symbolic(t.loop)
     maxc = _symbolic_max(S, t)
-    led = Ledger(part["cfg"], maxc)
+    led = Ledger(part["cfg"], maxc, free=bool(part.get("boot_free")))
     ops = list(part["prefix"])
     n = part["n"]
     changed = False
@@ -299,10 +304,14 @@ def scenarios(tier):
         hist = [dict(cfg=c, prefix=[p], n=3, alphabet=alpha) for c in "abc" for p in ("coin_d", "coin_q", "toggle")]
         hist += [dict(cfg="a", prefix=["service", "start", "award"], n=4, alphabet=["wait", "end_game"]),
                  dict(cfg="b", prefix=["coin_d", "coin_d", "start", "coin_q"], n=5, alphabet=["wait", "end_game"]),
-                 dict(cfg="b", prefix=["coin_d", "wait", "toggle", "start"], n=5, alphabet=["wait", "toggle"])]
+                 dict(cfg="b", prefix=["coin_d", "wait", "toggle", "start"], n=5, alphabet=["wait", "toggle"]),
+                 dict(cfg="b", boot_free=True, prefix=["toggle"], n=3, alphabet=["coin_q", "coin_d", "service", "start"]),
+                 dict(cfg="b", prefix=["enable_credit"], n=3, alphabet=["coin_q", "coin_d", "service", "start", "enable_credit"]),
+                 dict(cfg="a", prefix=["coin_d", "enable_free", "enable_free", "enable_credit"], n=6, alphabet=["coin_q", "start", "award"])]
     else:
-        alpha = ["coin_q", "coin_d", "service", "start", "end_game", "wait", "toggle", "award"]
+        alpha = ["coin_q", "coin_d", "service", "start", "end_game", "wait", "toggle", "award", "enable_credit", "enable_free"]
         hist = [dict(cfg=c, prefix=[p, q], n=4, alphabet=alpha) for c in "abc" for p in ("coin_d", "coin_q", "service")
                 for q in ("coin_d", "coin_q", "start", "wait")]
+        hist += [dict(cfg="b", boot_free=True, prefix=[p], n=4, alphabet=alpha) for p in ("toggle", "enable_credit", "start")]
     return [Scenario("step", setup, body_step, step_parts, teardown=teardown, part_budget=80 if tier == "quick" else 200, per_path_timeout=30),
             Scenario("history", setup, body_history, hist, teardown=teardown, part_budget=80 if tier == "quick" else 400, per_path_timeout=30)]
